@@ -13,8 +13,10 @@ execution:
   construct (``local`` variable, ``global`` variable, ``global-init`` =
   module-level initialisation of the global, instance ``attribute``,
   ``class-attribute``, container ``subscript``, ``call-arg`` = parameter
-  binding, ``call-return``) or ``u`` was executed because the branch condition
-  ``w`` was taken (``control``).
+  binding, ``call-return``; ``attribute-base`` / ``subscript-base`` = the local
+  variable that holds the object / container of an attribute or subscript
+  access) or ``u`` was executed because the branch condition ``w`` was taken
+  (``control``).
 
 The graph is *precise* on purpose (element-wise for containers, a call result
 depends on the argument only when the callee's returned value used the
@@ -30,8 +32,8 @@ from __future__ import annotations
 
 import ast
 
-CONSTRUCTS = ("local", "global", "global-init", "attribute", "class-attribute", "subscript",
-              "call-arg", "call-return", "control")
+CONSTRUCTS = ("local", "global", "global-init", "attribute", "attribute-base", "class-attribute",
+              "subscript", "subscript-base", "call-arg", "call-return", "control")
 
 
 class Node:
@@ -137,11 +139,11 @@ class Interp:
                 raise AssertionError(f"outside fragment: {ast.dump(st)}")
 
     # ------------------------------------------------------------ expressions
-    def _read_name(self, name, frame, n):
+    def _read_name(self, name, frame, n, role=None):
         if name in frame.locals and name not in frame.globals_decl:
             v, src = frame.locals[name]
             if src is not None:
-                n.edge(src, "call-arg" if src.what == "param" else "local")
+                n.edge(src, role or ("call-arg" if src.what == "param" else "local"))
             return v, src
         if name not in self.globals:
             raise Raised("NameError")
@@ -150,12 +152,12 @@ class Interp:
             n.edge(src, "global-init" if src.what == "module-assign" else "global")
         return v, src
 
-    def eval(self, e, frame, n):
+    def eval(self, e, frame, n, role=None):
         """Evaluate ``e``; add the dependence edges of the reads to ``n``; return the value."""
         if isinstance(e, ast.Constant):
             return e.value
         if isinstance(e, ast.Name):
-            return self._read_name(e.id, frame, n)[0]
+            return self._read_name(e.id, frame, n, role)[0]
         if isinstance(e, ast.BinOp):
             lhs, rhs = self.eval(e.left, frame, n), self.eval(e.right, frame, n)
             try:
@@ -175,7 +177,7 @@ class Interp:
             except TypeError:
                 raise Raised("TypeError") from None
         if isinstance(e, ast.Attribute):
-            obj = self.eval(e.value, frame, n)
+            obj = self.eval(e.value, frame, n, "attribute-base")
             assert isinstance(obj, Obj)
             if e.attr in obj.attrs:
                 v, src = obj.attrs[e.attr]
@@ -187,7 +189,7 @@ class Interp:
                 return v
             raise Raised("AttributeError")
         if isinstance(e, ast.Subscript):
-            cont = self.eval(e.value, frame, n)
+            cont = self.eval(e.value, frame, n, "subscript-base")
             key = e.slice.value
             if isinstance(cont, Lst):
                 v, src = cont.elems[key]
@@ -290,7 +292,7 @@ class Interp:
                 frame.locals[t.id] = (value, n)
         else:
             assert isinstance(t, ast.Attribute)
-            obj = self.eval(t.value, frame, n)
+            obj = self.eval(t.value, frame, n, "attribute-base")
             assert isinstance(obj, Obj)
             obj.attrs[t.attr] = (value, n)
             self.fired.add("attr-store")
